@@ -26,6 +26,9 @@ def load_known():
         return []
 
 
+CURRENT = None      # the Check of this process (run_main reports its witnessed violations even when the run ends inconclusive)
+
+
 class Check:
     """One run of one property check."""
 
@@ -37,6 +40,8 @@ class Check:
         self.notes = []
         self.known = [k for k in load_known() if k.get('property') == pid]
         os.makedirs(EVID, exist_ok=True)
+        global CURRENT
+        CURRENT = self
 
     # -- violations ---------------------------------------------------------------------
     def violation(self, key, what, witness=None):
@@ -61,8 +66,13 @@ class Check:
         return p
 
     # -- finish ---------------------------------------------------------------------------
-    def finish(self, coverage, assumptions=None):
-        """coverage: dict with evaluations, distinct_nontrivial, rule, samples (+ extras)."""
+    def new_violations(self):
+        return [k for k in self.viol if not self._match_known(k)]
+
+    def finish(self, coverage, assumptions=None, shortfall=None):
+        """coverage: dict with evaluations, distinct_nontrivial, rule, samples (+ extras).
+        shortfall: the run ended inconclusive (too little observed / harness trouble) AFTER violations had been witnessed: the
+        witnesses are reported, the coverage minimums (which only guard a verdict of 'held') are not demanded."""
         new, known_seen = [], []
         for key, v in sorted(self.viol.items()):
             k = self._match_known(key)
@@ -76,10 +86,17 @@ class Check:
         cov['violation_keys'] = [k for k, _ in new]
         ev = dict(property_id=self.pid, tier=self.tier, seed=self.seed, level=self.level, coverage=cov,
                   assumptions=assumptions or [], wall_s=round(time.time() - self.t0, 2), violations=len(new))
-        _validate_evidence(ev)
-        tmp = os.path.join(EVID, '.%s.json.tmp' % self.pid)
-        json.dump(ev, open(tmp, 'w'), indent=1, default=str)
-        os.replace(tmp, os.path.join(EVID, '%s.json' % self.pid))
+        if shortfall:
+            cov['inconclusive_after_violation'] = str(shortfall)[:500]
+        try:
+            _validate_evidence(ev, minimums=not shortfall)
+            tmp = os.path.join(EVID, '.%s.json.tmp' % self.pid)
+            json.dump(ev, open(tmp, 'w'), indent=1, default=str)
+            os.replace(tmp, os.path.join(EVID, '%s.json' % self.pid))
+        except Exception:
+            if not (shortfall and new):
+                raise
+            # too little was observed for an evidence file; the witnessed violations are still reported below
         seen = set()
         for key, k, v in known_seen:
             if k['key'] in seen:
@@ -97,17 +114,23 @@ class Check:
         return 1 if new else 0
 
 
-def _validate_evidence(ev):
+def _validate_evidence(ev, minimums=True):
     c = ev['coverage']
     for k in ('evaluations', 'distinct_nontrivial', 'rule', 'samples'):
         if k not in c:
             raise Inconclusive('evidence lacks ' + k)
+    if not minimums:
+        return _schema(ev)
     if not isinstance(c['evaluations'], int) or c['evaluations'] < 1:
         raise Inconclusive('nothing was evaluated')
     if not isinstance(c['distinct_nontrivial'], int) or c['distinct_nontrivial'] < 2:
         raise Inconclusive('fewer than 2 distinct non-trivial cases were observed (%r)' % c['distinct_nontrivial'])
     if not c['samples']:
         raise Inconclusive('no samples recorded')
+    _schema(ev)
+
+
+def _schema(ev):
     try:
         import jsonschema
         sch = json.load(open('/root/.vp/EVIDENCE.schema.json'))
@@ -128,6 +151,14 @@ def run_main(fn):
     try:
         rc = fn()
     except Inconclusive as e:
+        ck = CURRENT
+        if ck is not None and ck.new_violations():
+            # violations that were witnessed stay violations; only a verdict of 'held' needs the coverage that was missed
+            print('NOTE: run ended inconclusive (%s) after violations had been witnessed; reporting them' % e)
+            rc = ck.finish(dict(evaluations=max(1, sum(v['count'] for v in ck.viol.values())), distinct_nontrivial=len(ck.viol),
+                                rule='witnessed violations of a run that ended inconclusive', samples=[str(k) for k in list(ck.viol)[:5]]),
+                           shortfall=e)
+            sys.exit(rc)
         print('INCONCLUSIVE: %s' % e)
         sys.exit(2)
     except build.BuildError as e:
